@@ -534,7 +534,14 @@ func (cs *connState) handleRequest() bool {
 	}
 
 	// Handle the message.
-	r := cs.handle(m)
+	var r message
+	if f, ok := m.(*tflush); ok && f.OldTag == tag {
+		// A flush naming its own tag has nothing to wait for: waiting on
+		// the tag we just started would never return.
+		r = &rflush{}
+	} else {
+		r = cs.handle(m)
+	}
 
 	// Clear the tag before sending. That's because as soon as this
 	// hits the wire, the client can legally send another message
